@@ -413,8 +413,17 @@ def gen_containers(tier):
             yield {"wb": cat.form_for(label, "group", _dec_lang), "fmt": fmt, "meta": {"gen": "container", "t": label, "fmt": fmt}, "id": "data"}
 
 
+def gen_corpus(tier):
+    """the frozen corpus of realistic workbooks (xmc/corpus.py), in both print modes; the form id is the settings' or the default"""
+    from xmc import corpus
+
+    for cid, name, wb in corpus.forms():
+        fid = corpus.setting(wb, "form_id") or corpus.setting(wb, "id_string") or "data"
+        yield {"wb": wb, "meta": {"gen": "corpus", "t": ""}, "id": fid, "corpus": cid}
+
+
 SPACE = GenSpace(
-    {"names": gen_names, "types": gen_types, "layouts": gen_layouts, "containers": gen_containers,
+    {"corpus": gen_corpus, "names": gen_names, "types": gen_types, "layouts": gen_layouts, "containers": gen_containers,
      "settings": gen_settings, "text": gen_text, "namechars": gen_namechars, "lists-cols": gen_lists_cols,
      "nsprefix": gen_nsprefix, "mixdelim": gen_mixdelim, "formnames": gen_formnames, "choicenames": gen_choicenames},
     chunk=250,
